@@ -82,6 +82,23 @@ func (c *Ctx) OpFuncs(op *ssa.Function) []*ssa.Function {
 	return out
 }
 
+// OpContexts returns one provenance context per function of OpFuncs(op): the plain one for the operation and
+// its closures, and for a helper that is new on this tree one per call site (parameters read as the caller's
+// arguments).
+func (c *Ctx) OpContexts(op *ssa.Function) []*Origins {
+	var out []*Origins
+	for _, g := range c.OpFuncs(op) {
+		if g.Parent() == nil && g != op && c.P.IsNewFunc(g) {
+			for _, site := range c.callersOf(g) {
+				out = append(out, c.P.OriginsOf(site.Parent()).Enter(g, site))
+			}
+			continue
+		}
+		out = append(out, c.P.OriginsOf(g))
+	}
+	return out
+}
+
 // EffectSite is a place in an operation (or one of its closures) where an effect happens: either the
 // effect call itself or a call to a module helper that contains it.
 type EffectSite struct {
